@@ -44,6 +44,7 @@ type c05bRecorder struct {
 	Calls     int      // revoke handler invocations
 	Mode      string   // none | transient | always | unrecoverable
 	Transient int      // failures left in transient mode
+	Flavor    int      // which error a failing revocation returns: plain / wrapping context.Canceled / wrapping context.DeadlineExceeded
 	next      int
 }
 
@@ -104,14 +105,26 @@ func c05bFactory(ctx context.Context, conf *logical.BackendConfig) (logical.Back
 			c05bRec.mu.Lock()
 			defer c05bRec.mu.Unlock()
 			c05bRec.Calls++
+			// the retry budget is a matter of "the attempt failed", not of what the backend's error wraps: an upstream
+			// call of the BACKEND that was cancelled or timed out (the node itself is not stopping) is a failure like
+			// any other
+			failure := func(msg string) error {
+				switch c05bRec.Flavor % 3 {
+				case 1:
+					return fmt.Errorf("c05b: %s: upstream call: %w", msg, context.Canceled)
+				case 2:
+					return fmt.Errorf("c05b: %s: upstream call: %w", msg, context.DeadlineExceeded)
+				}
+				return errors.New("c05b: " + msg)
+			}
 			switch c05bRec.Mode {
 			case "transient":
 				if c05bRec.Transient > 0 {
 					c05bRec.Transient--
-					return nil, errors.New("c05b: transient revoke failure")
+					return nil, failure("transient revoke failure")
 				}
 			case "always":
-				return nil, errors.New("c05b: revoke keeps failing")
+				return nil, failure("revoke keeps failing")
 			case "unrecoverable":
 				return nil, logical.ErrUnrecoverable
 			}
@@ -774,6 +787,9 @@ func (x *c05bRun) setFail(mode string, n int) {
 	}
 	c05bRec.mu.Lock()
 	c05bRec.Mode, c05bRec.Transient = mode, n
+	if mode != "none" {
+		c05bRec.Flavor++
+	}
 	c05bRec.mu.Unlock()
 	x.emit("ok", "setfail", mode, vh.I(int64(n)))
 }
